@@ -47,7 +47,7 @@ buckets! {
     ys_feb29_ambiguous, ys_same_day, ys_large, ys_datetime_time_decides, ys_datetime_none_same_day,
     // quarter, year_ce, month lengths
     ndim_feb_leap, ndim_feb_common, ndim_30, ndim_31, ndim_century_common, ndim_400_leap,
-    month_num_days_in_range, month_num_days_out_of_range_year, quarter_checked, year_ce_bce, year_ce_ce,
+    month_num_days_in_range, month_num_days_out_of_range_year, quarter_checked, year_ce_bce, year_ce_ce, misc_wall_date_in_headroom,
     // thorough/quick product walk
     product_walk_date,
 }
@@ -229,6 +229,17 @@ macro_rules! date_op {
             let $x = $src.dt;
             if let Some(g) = $loc.call(concat!("NaiveDateTime::", $name), &inp, || $call) {
                 cmp_dt($loc, concat!("NaiveDateTime::", $name), &inp, g, $exp, $why, $src.t);
+            }
+        }
+        // (a leap-second representation in the very last second of the range compares greater than
+        // MAX_UTC and is refused by DateTime's range filter; whether that value "exists" is not
+        // something the property decides — such targets are left to the NaiveDateTime carrier)
+        let past_max_utc = $exp == Some((rc::MAX_YEAR, 12, 31)) && $src.t > NaiveTime::from_hms_nano_opt(23, 59, 59, 999_999_999).expect("time");
+        if $src.with_dt && !past_max_utc {
+            // the zone-aware carrier (UTC: wall clock = stored value) goes through its own Datelike impl
+            let $x = Utc.from_utc_datetime(&$src.dt);
+            if let Some(g) = $loc.call(concat!("DateTime<Utc>::", $name), &inp, || $call) {
+                cmp_dt($loc, concat!("DateTime<Utc>::", $name), &inp, g.map(|v| v.naive_utc()), $exp, $why, $src.t);
             }
         }
     }};
@@ -869,6 +880,17 @@ macro_rules! time_op {
                 cmp_time($loc, concat!("NaiveDateTime::", $name), &inp, g.map(|r| r.time()), $exp, $why);
             }
         }
+        if let Some(dt) = $dt.filter(|dt| dt.date() != NaiveDate::MAX) {
+            let $x = Utc.from_utc_datetime(&dt);
+            if let Some(g) = $loc.call(concat!("DateTime<Utc>::", $name), &inp, || $call) {
+                if let Some(r) = g {
+                    if r.naive_utc().date() != dt.date() {
+                        $loc.violation(concat!("C08/DateTime<Utc>::", $name, "/date-not-kept"), json!({"input": inp(), "date_before": dt.date().to_string(), "date_after": r.naive_utc().date().to_string()}));
+                    }
+                }
+                cmp_time($loc, concat!("DateTime<Utc>::", $name), &inp, g.map(|r| r.naive_utc().time()), $exp, $why);
+            }
+        }
     }};
 }
 
@@ -1493,6 +1515,26 @@ fn misc_phase(ctx: &Ctx, rep: &Report) {
             }
         }
         if shard == 0 {
+            // zone-aware values whose wall-clock date is the one day beyond either range end
+            // (262143-01-01 / -262144-12-31): the calendar helpers read that wall date
+            for (hi, off) in [(true, 1i32), (true, 3600), (true, 86_399), (false, -1), (false, -3600), (false, -86_399)] {
+                let fo = chrono::FixedOffset::east_opt(off).expect("offset");
+                let v = if hi { DateTime::<Utc>::MAX_UTC.with_timezone(&fo) } else { DateTime::<Utc>::MIN_UTC.with_timezone(&fo) };
+                let (ey, em, edim, eq) = if hi { (rc::MAX_YEAR + 1, 1u32, 31u32, 1u32) } else { (rc::MIN_YEAR - 1, 12, 31, 4) };
+                let eyce = if ey >= 1 { (true, ey as u32) } else { (false, (1 - ey) as u32) };
+                let inp = || json!({"value": if hi { "MAX_UTC" } else { "MIN_UTC" }, "offset_secs": off});
+                if let Some((yy, mm, nd, qq, yc)) = loc.call("DateTime<FixedOffset>::{num_days_in_month,quarter,year_ce}", &inp, || (v.year(), v.month(), v.num_days_in_month(), v.quarter(), v.year_ce())) {
+                    loc.evals(3);
+                    loc.bucket(Bk::misc_wall_date_in_headroom as usize);
+                    if (yy as i64, mm) != (ey, em) {
+                        rep.harness_error(format!("headroom carrier is not in the headroom: {:?}", (yy, mm)));
+                    }
+                    if nd as u32 != edim || qq != eq || yc != eyce {
+                        loc.violation("C08/DateTime<FixedOffset>::{num_days_in_month,quarter,year_ce}/wrong-for-wall-date-beyond-range-end", json!({"input": inp(), "expected": [edim, eq, eyce.1], "observed": [nd as u32, qq, yc.1]}));
+                    }
+                    loc.nontrivial(h2(52, off as u64));
+                }
+            }
             loc.sample(|| sample_guard(|| json!({"op": "Month::February.num_days(1900)", "expected": 28, "chrono": Month::February.num_days(1900)})));
         }
     });
